@@ -48,6 +48,16 @@ ezc3d::c3d::c3d(const std::string &filePath):
     // Read all the section
     _header = std::shared_ptr<ezc3d::Header>(new ezc3d::Header(*this));
     _parameters = std::shared_ptr<ezc3d::ParametersNS::Parameters>(new ezc3d::ParametersNS::Parameters(*this));
+    // The first element of these parameters is read when the header and the data are processed,
+    // a damaged file may declare them without any value
+    if (parameters().group("POINT").parameter("USED").valuesAsInt().empty()
+            || parameters().group("POINT").parameter("FRAMES").valuesAsInt().empty()
+            || parameters().group("POINT").parameter("RATE").valuesAsFloat().empty()
+            || (parameters().group("ANALOG").nbParameters() > 0
+                && (parameters().group("ANALOG").parameter("USED").valuesAsInt().empty()
+                    || parameters().group("ANALOG").parameter("RATE").valuesAsFloat().empty())))
+        throw std::ios_base::failure("The mandatory parameters of the c3d file must have a value");
+
     // header may be inconsistent with the parameters, so it must be update to make sure sizes are consistent
     updateHeader();
 
